@@ -537,6 +537,23 @@ def _(e):
     return "tensor.symmetrize", X.symmetrize, (np.array([0, 1]),), {}, X, {}
 
 
+for _ver in (None, 1):
+    for _which in (0, 1, 2):
+        for _odd in ("larger", "smaller", "one"):
+            def _mkSym(ver, which, oddk):
+                @row(f"tensor.symmetrize:{['first', 'middle', 'last'][which]}-listed-mode-of-the-group-is-{oddk}(version={ver})", (3,))
+                def _(e, ver=ver, which=which, oddk=oddk):
+                    n = int(e.rng.integers(2, 4))
+                    odd = {"larger": n + 1, "smaller": n - 1, "one": 1}[oddk]
+                    g = [int(x) for x in e.rng.permutation(3)]
+                    s = [n, n, n]
+                    s[g[which]] = odd
+                    X = with_shape(e, s).tensor()
+                    kw = {} if ver is None else {"version": ver}
+                    return "tensor.symmetrize", X.symmetrize, (np.array(g),), kw, X, {"odd_size": odd}
+            _mkSym(_ver, _which, _odd)
+
+
 @row("tensor.symmetrize:overlapping-groups", (3,))
 def _(e):
     X = with_shape(e, (2, 2, 2)).tensor()
